@@ -253,50 +253,55 @@ impl MainEvent {
         let mut trigger_timestamp = None;
         // Need to group chunks by board and chip.
         let mut pwb_chunks_map: HashMap<_, Vec<_>> = HashMap::new();
+        // Wire banks seen so far.
+        let mut wire_banks: Vec<Adc32BankName> = Vec::new();
 
         for (bank_name, data_slice) in banks {
             match MainEventBankName::try_from(bank_name)? {
                 MainEventBankName::Alpha16(Alpha16BankName::A32(bank_name)) => {
                     let packet = AdcPacket::try_from(data_slice)?;
-                    let waveform = packet.waveform();
-                    if waveform.is_empty() {
-                        continue;
-                    }
-                    // Given that the waveform is not empty, we can safely
-                    // unwrap.
-                    let board_id = packet.board_id().unwrap();
                     let alpha16::ChannelId::A32(channel_id) = packet.channel_id() else {
                         return Err(TryMainEventFromDataBanksError::WireBankWithBvChannel {
                             bank_name,
                         });
                     };
+                    // The board_id is only present if the packet has a waveform.
+                    let board_id = packet.board_id().unwrap_or(bank_name.board_id());
                     if (bank_name.board_id(), bank_name.channel_id()) != (board_id, channel_id) {
                         return Err(TryMainEventFromDataBanksError::Alpha16IdMismatch {
                             expected: (bank_name.board_id(), bank_name.channel_id()),
                             found: (board_id, channel_id),
                         });
                     }
-
-                    let wire_position = TpcWirePosition::try_new(run_number, board_id, channel_id)?;
-                    let wire_index = usize::from(wire_position);
-                    if wire_signals[wire_index].is_some() {
+                    // A channel without samples (suppressed, or not longer than
+                    // the delay) leaves its signal slot empty, so duplicates
+                    // have to be tracked by bank name.
+                    if wire_banks.contains(&bank_name) {
                         return Err(TryMainEventFromDataBanksError::DuplicateWireBank {
                             bank_name,
                         });
-                    } else {
-                        let baseline = try_wire_baseline(run_number, wire_position)?;
-                        let gain = try_wire_gain(run_number, wire_position)?;
-                        let delay = try_wire_delay(run_number)?;
+                    }
+                    wire_banks.push(bank_name);
 
-                        let signal: Vec<_> = waveform
-                            .iter()
-                            .skip(delay)
-                            // Convert to i32 to avoid overflow
-                            .map(|&v| f64::from(i32::from(v) - i32::from(baseline)) * gain)
-                            .collect();
-                        if !signal.is_empty() {
-                            wire_signals[wire_index] = Some(signal);
-                        }
+                    let waveform = packet.waveform();
+                    if waveform.is_empty() {
+                        continue;
+                    }
+
+                    let wire_position = TpcWirePosition::try_new(run_number, board_id, channel_id)?;
+                    let wire_index = usize::from(wire_position);
+                    let baseline = try_wire_baseline(run_number, wire_position)?;
+                    let gain = try_wire_gain(run_number, wire_position)?;
+                    let delay = try_wire_delay(run_number)?;
+
+                    let signal: Vec<_> = waveform
+                        .iter()
+                        .skip(delay)
+                        // Convert to i32 to avoid overflow
+                        .map(|&v| f64::from(i32::from(v) - i32::from(baseline)) * gain)
+                        .collect();
+                    if !signal.is_empty() {
+                        wire_signals[wire_index] = Some(signal);
                     }
                 }
                 MainEventBankName::Padwing(bank_name) => {
